@@ -16,6 +16,8 @@ corollaries: lazy start, exhausted stays exhausted (after return AND after an ex
 value is carried by StopIteration, re-entry is ValueError.
 -/
 import GPy.C05.Proofs
+import GPy.C05.ProofsMore
+import GPy.C05.Frame
 namespace GPy.C05
 
 variable {σ : Type}
@@ -29,6 +31,15 @@ theorem site_table_faithful :
 
 /-- the table has a row for each `py.Next` call the model transliterates (16 on the verified tree) -/
 theorem site_table_complete : Generated.sites.length = 16 := by decide
+
+/-- every call of the helpers that loop over `py.Next` themselves (`py.Iterate`, `SequenceList/Tuple/Set`,
+`List.ExtendSequence` – what list.extend, `+=`, set.update, dict.update, sorted, slice assignment, star-args … are built on)
+hands the helper's error on to its caller: with `faithful_list/tuple/set/extend/collectThen` this makes each of them faithful.
+A new call site changes the regenerated table; a site that drops or tests the error is not `forward` and breaks this theorem. -/
+theorem derived_sites_forward : Generated.derivedSites.all (fun s => s.kind == .forward) = true := by decide
+
+/-- 23 such call sites on the verified tree (a change here means a consumer was added or removed: look at it) -/
+theorem derived_sites_complete : Generated.derivedSites.length = 23 := by decide
 
 /-- `kind = isException → faithful` for the generic loop of `py.Iterate` (the lemma of DESIGN §7/C05) -/
 theorem isException_faithful {next : σ → Resp × σ} {s : σ} {sc : Script} (h : Runs next s sc)
@@ -139,7 +150,37 @@ theorem faithful_sum (add : Val → Val → Except Exc Val) (h : Runs next s sc)
     builtinSum add next fuel s start = specSum add sc start := sumK_faithful add h fuel hf start
 
 theorem faithful_minMax (cmp : Val → Val → Except Exc Bool) (h : Runs next s sc) (fuel : Nat) (hf : sc.length < fuel)
-    (dflt : Option Val) : minMax cmp next fuel s dflt = specMinMax cmp sc dflt := minMaxK_faithful cmp h fuel hf dflt
+    (dflt : Option Val) : minMax cmp next fuel s dflt = specMinMax cmp sc dflt :=
+  minMaxKeyK_faithful (fun v => .ok v) cmp h fuel hf none dflt
+
+/-- `min`/`max` with `key=` (every key function, which may raise) and `default=` -/
+theorem faithful_minMaxKey (key : Val → Except PyErr Val) (cmp : Val → Val → Except Exc Bool) (h : Runs next s sc) (fuel : Nat)
+    (hf : sc.length < fuel) (dflt : Option Val) : minMaxKey key cmp next fuel s dflt = specMinMaxKey key cmp sc none dflt :=
+  minMaxKeyK_faithful key cmp h fuel hf none dflt
+
+/-- `l.extend(it)` and `l += it`, for every list `init` the target already holds -/
+theorem faithful_extend (init : List Val) (h : Runs next s sc) (fuel : Nat) (hf : sc.length < fuel) :
+    listExtend next fuel s init = specExtend init sc := by
+  simp only [listExtend, iterate_eq, specExtend, specAll]
+  rw [iterateK_collect h (fun l v => l ++ [v]) fuel hf init]
+  simp only [foldl_snoc]
+  cases endOf sc <;> simp [toPy_other]
+
+/-- `s.update(it)` -/
+theorem faithful_setUpdate (init : List Val) (h : Runs next s sc) (fuel : Nat) (hf : sc.length < fuel) :
+    setUpdate next fuel s init = specSetUpdate init sc := by
+  simp only [setUpdate, iterate_eq, specSetUpdate, specAll]
+  rw [iterateK_collect h setAdd fuel hf []]
+  cases endOf sc <;> simp [foldl_setAdd, toPy_other]
+
+/-- every consumer that reads the iterable with `SequenceList` and then computes on the list
+(`dict(it)`, `d.update(it)`, `sorted(it, key=f)`, slice assignment): for EVERY such computation `fin` -/
+theorem faithful_collectThen (fin : List Val → Out) (h : Runs next s sc) (fuel : Nat) (hf : sc.length < fuel) :
+    collectThen fin next fuel s = specAll fin sc := by
+  simp only [collectThen, sequenceListRaw, iterate_eq, specAll]
+  rw [iterateK_collect h (fun l v => l ++ [v]) fuel hf []]
+  simp only [foldl_snoc, List.nil_append]
+  cases endOf sc <;> simp [toPy_other]
 
 theorem faithful_next (h : Runs next s sc) (dflt : Option Val) : builtinNext next s dflt = specNext dflt sc := by
   have hk : Generated.k_stdlib_builtin_builtin_builtin_next_0 = .isException := rfl
@@ -178,6 +219,19 @@ and propagates the first exception -/
 theorem zip_transparent {τ : Type} {n1 : σ → Resp × σ} {n2 : τ → Resp × τ} {s1 : σ} {s2 : τ} {a b : Script}
     (h1 : Runs n1 s1 a) (h2 : Runs n2 s2 b) : Runs (zipNext n1 n2) (s1, s2) (zipScript a b) := zip_runs h1 h2
 
+/-- `filter(None, it)` is transparent (the Go `for {}` that skips falsy items, with any fuel that covers the script) -/
+theorem filter_transparent (truth : Val → Except Exc Bool) {next : σ → Resp × σ} {s : σ} {sc : Script} (h : Runs next s sc)
+    (fuel : Nat) (hf : sc.length < fuel) : Runs (filterNext truth fuel next) s (filterScript truth sc) :=
+  filter_runs truth h fuel hf
+
+/-- the producer kind `map(perform, [codes…])` used by the correspondence run realises the script it encodes -/
+theorem mapped_realises (sc : Script) : Runs (mapNext decodeF listIterNext) (sc.map encodeStep) sc := mapped_runs sc
+
+/-- a class with only `__getitem__` driven by `Iterator.M__next__` realises its script; IndexError means exhaustion in
+this protocol, so the script must not raise IndexError as "another exception" (`getitem_index_is_stop_witness`) -/
+theorem getitem_realises (sc : Script) (hno : ∀ st ∈ sc, st ≠ Step.raise Exc.index) :
+    Runs (iteratorNext (getitemOf sc)) 0 sc := getitem_runs sc hno
+
 /-- end-to-end instance: `list(enumerate(G(script)))` for every script -/
 theorem list_enumerate_generator (sc : Script) (fuel : Nat) (hf : (enumScript 0 sc).length < fuel) :
     sequenceList (enumNext (genNext scriptRun)) fuel (0, newGenerator sc) = specList (enumScript 0 sc) :=
@@ -186,7 +240,7 @@ theorem list_enumerate_generator (sc : Script) (fuel : Nat) (hf : (enumScript 0 
 /-! ## the generator object -/
 
 section
-variable {φ : Type} (run : Option Val → φ → RunOut × φ)
+variable {φ : Type} (run : Entry → φ → RunOut × φ)
 
 /-- MAIN: for every frame behaviour and every history of next/send, `Generator.Send` returns what the
 coroutine reference semantics says (`started`/`live` are the abstraction of `Lasti ≠ 0` / `Lasti = 0 ∨ Yielded`). -/
@@ -224,12 +278,12 @@ theorem gen_exhausted_stays (h : List Val) (g : GenObj φ) (hr : g.running = fal
     obtain ⟨fresh, yielded, running, frame⟩ := g
     simp only at hr hf hy
     subst hr hf hy
-    simp only [modelHistory, runCount, GenObj.send, List.map_cons]
+    simp only [modelHistory, runCount, GenObj.send_eq, List.map_cons]
     simpa using ih
 
 /-- both ways of finishing lead to that state: after a `return` and after an exception -/
 theorem gen_finish_exhausts (g : GenObj φ) (a : Val) (hr : g.running = false)
-    (hfin : ∃ fr, (∃ v, run (if g.fresh then none else some a) g.frame = (.ret v, fr)) ∨ (∃ e, run (if g.fresh then none else some a) g.frame = (.raise e, fr)))
+    (hfin : ∃ fr, (∃ v, run (if g.fresh then .first else .send a) g.frame = (.ret v, fr)) ∨ (∃ e, run (if g.fresh then .first else .send a) g.frame = (.raise e, fr)))
     (hlive : g.fresh = true ∧ a = .none ∨ g.fresh = false ∧ g.yielded = true) :
     let g' := (g.send run a).2.1
     g'.running = false ∧ g'.fresh = false ∧ g'.yielded = false := by
@@ -238,18 +292,18 @@ theorem gen_finish_exhausts (g : GenObj φ) (a : Val) (hr : g.running = false)
   subst hr
   obtain ⟨fr, hfin⟩ := hfin
   rcases hlive with ⟨h1, h2⟩ | ⟨h1, h2⟩ <;> simp only at h1 h2 <;> subst h1 h2 <;>
-    rcases hfin with ⟨v, hv⟩ | ⟨e, he⟩ <;> simp_all [GenObj.send] <;>
+    rcases hfin with ⟨v, hv⟩ | ⟨e, he⟩ <;> simp_all [GenObj.send_eq] <;>
     (try (split <;> simp))
 
 /-- the return value is carried by the StopIteration that ends the generator -/
 theorem gen_return_value_carried (g : GenObj φ) (a v : Val) (fr : φ) (hr : g.running = false) (hy : g.fresh = false ∧ g.yielded = true)
-    (hrun : run (some a) g.frame = (.ret v, fr)) :
+    (hrun : run (.send a) g.frame = (.ret v, fr)) :
     (g.send run a).1 = .err (if v != .none then .stopExc v else .stopType) ∧ (NextErr.stopValue (if v != .none then .stopExc v else .stopType)) = v := by
   obtain ⟨fresh, yielded, running, frame⟩ := g
   simp only at hr hy hrun
   obtain ⟨h1, h2⟩ := hy
   subst hr h1 h2
-  by_cases hv : v = .none <;> simp [GenObj.send, hrun, hv, NextErr.stopValue]
+  by_cases hv : v = .none <;> simp [GenObj.send_eq, hrun, hv, NextErr.stopValue]
 
 /-- the sent value reaches the frame; a just-started generator refuses a non-None value without running -/
 theorem gen_send_fresh_nonNone (g : GenObj φ) (a : Val) (hr : g.running = false) (hf : g.fresh = true) (ha : a ≠ .none) :
@@ -257,14 +311,222 @@ theorem gen_send_fresh_nonNone (g : GenObj φ) (a : Val) (hr : g.running = false
   obtain ⟨fresh, yielded, running, frame⟩ := g
   simp only at hr hf
   subst hr hf
-  simp [GenObj.send, ha]
+  simp [GenObj.send_eq, ha]
 
 /-- re-entry: `next`/`send` on a generator that is executing is ValueError and changes nothing -/
 theorem gen_running_reentry (g : GenObj φ) (a : Val) (hr : g.running = true) :
     g.send run a = (.err (.other .value), g, false) := by
-  simp [GenObj.send, hr]
+  simp [GenObj.send_eq, hr]
 
 end
+
+/-! ## throw / close -/
+
+section
+variable {φ : Type} (run : Entry → φ → RunOut × φ)
+
+/-- MAIN (round 2): for every frame behaviour and every history of next/send/throw/close, `Generator.Send/Throw/Close`
+answer what Python's definition of the generator methods says (`specOps`). -/
+theorem gen_ops_invariant (h : List GOp) (g : GenObj φ) (hr : g.running = false) :
+    modelOps run h g = specOps run h (!g.fresh) (g.fresh || g.yielded) g.frame := by
+  induction h generalizing g with
+  | nil => rfl
+  | cons o r ih =>
+    obtain ⟨fresh, yielded, running, frame⟩ := g
+    simp only at hr
+    subst hr
+    cases o with
+    | send a =>
+      cases fresh <;> cases yielded <;> by_cases ha : a = .none <;>
+        simp [modelOps, specOps, GenObj.send, GenObj.resume, ha, ih, endResp]
+      all_goals
+        generalize run _ frame = x
+        obtain ⟨o, fr⟩ := x
+        cases o with
+        | yield v => simp [ih]
+        | ret v => by_cases hv : v = .none <;> simp [hv, ih]
+        | raise e => simp [ih]
+    | throw e =>
+      cases fresh <;> cases yielded <;>
+        simp [modelOps, specOps, GenObj.throw, GenObj.resume, ih, endResp]
+      all_goals
+        generalize run _ frame = x
+        obtain ⟨o, fr⟩ := x
+        cases o with
+        | yield v => simp [ih]
+        | ret v => by_cases hv : v = .none <;> simp [hv, ih]
+        | raise e => simp [ih]
+    | close =>
+      cases fresh <;> cases yielded <;>
+        simp [modelOps, specOps, GenObj.close, GenObj.resume, ih, isStop_genExit, isGenExit_genExit]
+      all_goals
+        generalize run _ frame = x
+        obtain ⟨o, fr⟩ := x
+        cases o with
+        | yield v => simp [ih]
+        | ret v => by_cases hv : v = .none <;> simp [hv, ih]
+        | raise e => cases he : (e.isStop || e.isGenExit) <;> simp_all
+
+theorem gen_ops_spec (h : List GOp) (fr : φ) : modelOps run h (newGenerator fr) = specOps run h false true fr :=
+  gen_ops_invariant run h (newGenerator fr) rfl
+
+/-- `throw(e)` on a suspended generator resumes the frame with `e` raised at the yield (the frame is entered by
+`Entry.throw e`, nothing is pushed): it answers what the frame then does – the next yielded value (still suspended),
+StopIteration carrying the return value, or the exception that comes out (both: exhausted) -/
+theorem gen_throw_spec (g : GenObj φ) (e : NextErr) (hr : g.running = false) (hf : g.fresh = false) (hy : g.yielded = true) :
+    let out := run (.throw e) g.frame
+    g.throw run e = (endResp out.1, { fresh := false, yielded := (match out.1 with | .yield _ => true | _ => false),
+                                       running := false, frame := out.2 }, true) := by
+  obtain ⟨fresh, yielded, running, frame⟩ := g
+  simp only at hr hf hy
+  subst hr hf hy
+  simp only [GenObj.throw, GenObj.resume, endResp]
+  generalize run _ frame = x
+  obtain ⟨o, fr⟩ := x
+  cases o with
+  | yield v => simp
+  | ret v => by_cases hv : v = .none <;> simp [hv]
+  | raise e => simp
+
+/-- `throw(e)` on a generator that was never started raises `e` without running anything of the body, and the
+generator is exhausted afterwards (lazy: the body never runs) -/
+theorem gen_throw_unstarted (fr : φ) (e : NextErr) :
+    (newGenerator fr).throw run e = (.err e, { fresh := false, yielded := false, running := false, frame := fr }, false) := by
+  simp [GenObj.throw, GenObj.resume, newGenerator]
+
+/-- `throw(e)` on an exhausted generator hands `e` straight back; nothing runs, nothing changes -/
+theorem gen_throw_finished (g : GenObj φ) (e : NextErr) (hr : g.running = false) (hf : g.fresh = false) (hy : g.yielded = false) :
+    g.throw run e = (.err e, g, false) := by
+  obtain ⟨fresh, yielded, running, frame⟩ := g
+  simp only at hr hf hy
+  subst hr hf hy
+  simp [GenObj.throw, GenObj.resume]
+
+/-- `close()` on a suspended generator raises GeneratorExit at the yield; it returns None when the frame then returns or
+lets GeneratorExit / a StopIteration out, raises RuntimeError when the frame yields again (the generator stays suspended
+there) and propagates every other exception -/
+theorem gen_close_spec (g : GenObj φ) (hr : g.running = false) (hf : g.fresh = false) (hy : g.yielded = true) :
+    let out := run (.throw (.other .genExit)) g.frame
+    (g.close run).1 = (match out.1 with
+      | .yield _ => some (.other .runtime)
+      | .ret _ => none
+      | .raise e => if e.isStop || e.isGenExit then none else some e) ∧
+    (g.close run).2.1 = { fresh := false, yielded := (match out.1 with | .yield _ => true | _ => false), running := false, frame := out.2 } := by
+  obtain ⟨fresh, yielded, running, frame⟩ := g
+  simp only at hr hf hy
+  subst hr hf hy
+  simp only [GenObj.close, GenObj.resume]
+  generalize run _ frame = x
+  obtain ⟨o, fr⟩ := x
+  cases o with
+  | yield v => simp
+  | ret v => by_cases hv : v = .none <;> simp [hv]
+  | raise e => cases he : (e.isStop || e.isGenExit) <;> simp_all
+
+/-- whenever `close()` returns None the generator is exhausted: by `gen_exhausted_stays` every later next/send is
+StopIteration and the frame never runs again (this includes closing a generator that was never started) -/
+theorem gen_close_exhausts (g : GenObj φ) (hr : g.running = false) (hc : (g.close run).1 = none) :
+    let g' := (g.close run).2.1
+    g'.running = false ∧ g'.fresh = false ∧ g'.yielded = false := by
+  obtain ⟨fresh, yielded, running, frame⟩ := g
+  simp only at hr
+  subst hr
+  revert hc
+  cases fresh <;> cases yielded <;> simp [GenObj.close, GenObj.resume, isStop_genExit, isGenExit_genExit]
+  all_goals
+    generalize run _ frame = x
+    obtain ⟨o, fr⟩ := x
+    cases o with
+    | yield v => simp
+    | ret v => by_cases hv : v = .none <;> simp [hv]
+    | raise e => cases he : (e.isStop || e.isGenExit) <;> simp_all
+
+/-- `close()` on an exhausted generator does nothing -/
+theorem gen_close_finished (g : GenObj φ) (hr : g.running = false) (hf : g.fresh = false) (hy : g.yielded = false) :
+    g.close run = (none, g, false) := by
+  obtain ⟨fresh, yielded, running, frame⟩ := g
+  simp only at hr hf hy
+  subst hr hf hy
+  simp [GenObj.close, GenObj.resume, isStop_genExit, isGenExit_genExit]
+
+/-- the frame is only ever touched through `run`: a call that is refused (re-entry, non-None first send), answered by an
+exhausted generator, or made on a generator that was never started by throw/close leaves it exactly as it was, and every
+other call stores exactly the frame `run` returned – nothing of a suspended frame is lost or altered between two
+resumptions (DESIGN: gen_resume_preserves_frame) -/
+theorem gen_resume_preserves_frame (g : GenObj φ) (arg : Val) (exc : Option NextErr) :
+    let r := g.resume run arg exc
+    (r.2.2 = false → r.2.1.frame = g.frame) ∧
+    (r.2.2 = true → r.2.1.frame =
+      (run (match exc with | some e => .throw e | none => if g.fresh then .first else .send arg) g.frame).2) := by
+  obtain ⟨fresh, yielded, running, frame⟩ := g
+  cases running <;> cases fresh <;> cases yielded <;> cases exc <;> by_cases ha : arg = .none <;>
+    simp [GenObj.resume, ha]
+  all_goals
+    generalize run _ frame = x
+    obtain ⟨o, fr⟩ := x
+    cases o with
+    | yield v => simp
+    | ret v => by_cases hv : v = .none <;> simp [hv]
+    | raise e => simp
+
+end
+
+/-! ## the frame: locals, loop position and pending try/finally blocks across a suspension
+
+`Frame.lean` transliterates `vm.RunFrame` for the instruction subset generator bodies compile to, keeping Go's split between
+`*py.Frame` (pc, value stack, block stack, locals, saved handled exception: survives a suspension) and the `Vm` value that is
+re-created at every entry.  `Body.lean` gives the same bodies their reference meaning as a coroutine (`coRun`). -/
+
+/-- LOOP POSITION AND LOCALS, for a family: for EVERY `n` and EVERY history of next / send / throw / close, the compiled body
+`for i0 in range(n): x = yield 7; LG.append(x)` run on the transliterated `RunFrame` (the range iterator lives on the frame's
+value stack, the loop block on its block stack) through `Generator.Send/Throw/Close` answers exactly what Python's definition
+of the generator methods (`specOps`) says over the reference coroutine of that body. -/
+theorem frame_loop_yield_spec (n : Nat) (ops : List FOp) :
+    modelOps (frameRun (compileBody (.loop n (.yld 7))) 10000) (ops.map FOp.toG) (newGenerator frameInit) =
+      specOps coRun (ops.map FOp.toG) false true (coInit (.loop n (.yld 7))) := by
+  rw [← drive_modelOps, (loop_yield_family n ops).1, drive_modelOps]
+  exact gen_ops_spec coRun _ _
+
+/-- … and the log (every sent value, in order) is the same at the end of every history -/
+theorem frame_loop_yield_log (n : Nat) (ops : List FOp) :
+    (drive (frameRun (compileBody (.loop n (.yld 7))) 10000) ops (newGenerator frameInit)).2.frame.log =
+      (drive coRun ops (newGenerator (coInit (.loop n (.yld 7))))).2.frame.log := (loop_yield_family n ops).2
+
+/-- concretely: next() followed by the sends `vs` against `range(len(vs))` is answered by 7, `len(vs)` times, then
+StopIteration, and the log is exactly the sent values in order -/
+theorem frame_loop_yield_direct (vs : List Val) :
+    (drive (frameRun (compileBody (.loop vs.length (.yld 7))) 10000) (.next :: vs.map .send) (newGenerator frameInit)).1 =
+      List.replicate vs.length (.resp (.item (.int 7))) ++ [.resp (.err .stopType)] ∧
+    (drive (frameRun (compileBody (.loop vs.length (.yld 7))) 10000) (.next :: vs.map .send) (newGenerator frameInit)).2.frame.log = vs :=
+  loop_yield_direct vs
+
+/-- PENDING try/finally: for `try: x = yield 1; LG.append(x) finally: LG.append(9)` the suspended frame holds the
+SETUP_FINALLY block, and BOTH ways of resuming – every sent value, every thrown exception – run the finally clause -/
+theorem frame_finally_pending :
+    frameRun (compileBody finBody) 10000 .first frameInit = (.yield (.int 1), finSusp) ∧
+    finSusp.blocks = [⟨.finally, 10, 0⟩] ∧
+    (∀ v : Val, frameRun (compileBody finBody) 10000 (.send v) finSusp =
+      (.ret .none, { pc := 17, stack := [], blocks := [], locals := [(0, .v v)], exc := {}, log := [v, .int 9] })) ∧
+    (∀ e : NextErr, frameRun (compileBody finBody) 10000 (.throw e) finSusp =
+      (.raise e, { pc := 15, stack := [], blocks := [], locals := [], exc := {}, log := [.int 9] })) :=
+  finally_pending_preserved
+
+/-- THE HANDLED EXCEPTION: a generator suspended inside `except LookupError:` (entered by a KeyError) keeps the
+EXCEPT_HANDLER block, the saved previous exception state on its value stack and the exception being handled in `frame.Exc`
+(fix e63d853); every sent value finishes the handler (POP_EXCEPT restores "no exception"), every thrown exception unwinds it -/
+theorem frame_handler_exc :
+    frameRun (compileBody hdlBody) 10000 .first frameInit = (.yield (.int 1), hdlSusp) ∧
+    (∀ v : Val, frameRun (compileBody hdlBody) 10000 (.send v) hdlSusp =
+      (.ret .none, { pc := 24, stack := [], blocks := [], locals := [(0, .v v)], exc := {}, log := [v] })) ∧
+    (∀ e : NextErr, frameRun (compileBody hdlBody) 10000 (.throw e) hdlSusp =
+      (.raise e, { pc := 14, stack := [], blocks := [], locals := [], exc := {}, log := [] })) :=
+  handler_exc_preserved
+
+/-- lazy: the first entry runs exactly up to the first yield (for every continuation `rest` of the body) -/
+theorem frame_first_lazy (j k : Nat) (rest : S) (fuel : Nat) :
+    frameRun (compileBody (.seq (.log j) (.seq (.yld k) rest))) (fuel + 7) .first frameInit =
+      (.yield (.int k), { pc := 6, stack := [], blocks := [], locals := [], exc := {}, log := [.int j] }) :=
+  frameRun_first_lazy j k rest fuel
 
 /-! ## yield from -/
 
@@ -283,7 +545,7 @@ theorem yield_from_transparent {next : σ → Resp × σ} {s : σ} {sc : Script}
     | zero => simp at hf
     | succ n =>
       cases fresh <;>
-        simp [yieldFromCollect, genNext, GenObj.next, GenObj.send, delegRun, yieldFromStep, hk, hn, classify_stop hs, hv,
+        simp [yieldFromCollect, genNext, GenObj.next, GenObj.send_eq, delegRun, yieldFromStep, hk, hn, classify_stop hs, hv,
           endOf, itemsOf]
   | item hn _ ih =>
     cases fuel with
@@ -292,7 +554,7 @@ theorem yield_from_transparent {next : σ → Resp × σ} {s : σ} {sc : Script}
       simp only [List.length_cons, Nat.add_lt_add_iff_right] at hf
       have := ih n hf false
       cases fresh <;>
-        simp_all [yieldFromCollect, genNext, GenObj.next, GenObj.send, delegRun, yieldFromStep, endOf, itemsOf]
+        simp_all [yieldFromCollect, genNext, GenObj.next, GenObj.send_eq, delegRun, yieldFromStep, endOf, itemsOf]
   | stop hst hn hs hv =>
     rename_i st r v
     cases fuel with
@@ -300,13 +562,13 @@ theorem yield_from_transparent {next : σ → Resp × σ} {s : σ} {sc : Script}
     | succ n =>
       obtain ⟨h1, h2⟩ := stop_items hst r
       by_cases hvn : v = .none <;> cases fresh <;>
-        simp [yieldFromCollect, genNext, GenObj.next, GenObj.send, delegRun, yieldFromStep, hk, hn, classify_stop hs, hv, hvn, h1, h2]
+        simp [yieldFromCollect, genNext, GenObj.next, GenObj.send_eq, delegRun, yieldFromStep, hk, hn, classify_stop hs, hv, hvn, h1, h2]
   | raise hn =>
     cases fuel with
     | zero => simp at hf
     | succ n =>
       cases fresh <;>
-        simp [yieldFromCollect, genNext, GenObj.next, GenObj.send, delegRun, yieldFromStep, hk, hn, classify_other,
+        simp [yieldFromCollect, genNext, GenObj.next, GenObj.send_eq, delegRun, yieldFromStep, hk, hn, classify_other,
           endOf, NextErr.isStop, toPy_other]
 
 theorem faithful_yieldFrom {next : σ → Resp × σ} {s : σ} {sc : Script} (h : Runs next s sc) (fuel : Nat) (hf : sc.length < fuel) :
